@@ -742,10 +742,17 @@ def run(chk, model_ok):
             if g:
                 lits.append(g)
                 owner.append((c, r["read"]))
-        bad = lib.coq_bad_indices("C13", REQ, "check_case", lits, chunk=60)
-        outside = lib.coq_bad_indices("C13", REQ, "in_fragment", lits, chunk=60)
+        # check_strict = agreement AND inside the fragment; the few cases where it is false are
+        # then separated into "outside the fragment" and genuine disagreements
+        suspects = lib.coq_bad_indices("C13", REQ, "check_strict", lits, chunk=60)
+        inside = set()
+        if suspects:
+            sub = [lits[i] for i in suspects]
+            out_idx = set(lib.coq_bad_indices("C13", REQ, "in_fragment", sub, chunk=60))
+            inside = {suspects[j] for j in range(len(suspects)) if j not in out_idx}
+        bad = sorted(inside)
         ncorr = len(lits)
-        nfrag = ncorr - len(outside)
+        nfrag = ncorr - (len(suspects) - len(bad))
         for i in bad[:40]:
             c, rd = owner[i]
             if c.get("cid") in explained:
